@@ -9,6 +9,7 @@ import (
 	"strconv"
 	"strings"
 	"sync"
+	"time"
 
 	"github.com/zmap/zlint/v3/lint"
 	"pgregory.net/rapid"
@@ -17,6 +18,8 @@ import (
 	"verifharness/gen"
 	"verifharness/model"
 	"verifharness/stats"
+
+	dt "verifharness/dertree"
 )
 
 var (
@@ -259,3 +262,98 @@ func findings(v map[string]model.Verdict) []string {
 }
 
 func join(ss []string) string { return strings.Join(ss, ",") }
+
+// drawConfiguredCase: an object of a configurable lint's kind together with a well-typed configuration for that
+// lint (the documented alternative value or generated field values) - rule bodies have branches that only a
+// non-default option opens. CRL lints get built revocation lists (calendar-edge dates) half of the time.
+func drawConfiguredCase(rt *rapid.T) (engine.Case, string) {
+	cis := engine.Configurables()
+	if len(cis) == 0 {
+		return drawObject(rt, 2, true), ""
+	}
+	ci := cis[rapid.IntRange(0, len(cis)-1).Draw(rt, "cfglint")]
+	var doc string
+	if alt, ok := altDocs[ci.Name]; ok && rapid.Bool().Draw(rt, "altdoc") {
+		doc = alt
+	} else {
+		doc = engine.WellTypedSection(rt, ci, map[string]interface{}{})
+	}
+	var c engine.Case
+	kind := lintKindOf(ci.Name)
+	switch {
+	case kind == "crl" && rapid.Bool().Draw(rt, "builtcrl"):
+		der, ops := gen.DrawBuiltCRL(rt)
+		c = engine.Case{Kind: gen.CRL, DER: der, Base: "built-crl", Ops: ops}
+	case kind == "crl":
+		der, base, ops := gen.DrawEdited(rt, gen.LoadCorpus().CRLs, 2)
+		c = engine.Case{Kind: gen.CRL, DER: der, Base: base, Ops: ops}
+	default:
+		hs := homeObjects()[ci.Name]
+		if len(hs) > 0 && rapid.IntRange(0, 3).Draw(rt, "home") > 0 {
+			o := kindObjs(kind)[hs[rapid.IntRange(0, len(hs)-1).Draw(rt, "homeobj")]]
+			root, err := dt.Parse(o.DER)
+			if err == nil {
+				var ops []string
+				for i, n := 0, rapid.IntRange(0, 2).Draw(rt, "nedits"); i < n; i++ {
+					ops = append(ops, gen.RandomEdit(rt, root))
+				}
+				c = engine.Case{Kind: o.Kind, DER: root.Encode(), Base: o.Name, Ops: ops}
+				break
+			}
+		}
+		c = drawObject(rt, 2, true)
+	}
+	c.Config = &doc
+	c.Ops = append(c.Ops, "configured:"+ci.Name)
+	return c, ci.Name
+}
+
+func lintKindOf(name string) string {
+	g := lint.GlobalRegistry()
+	if g.RevocationListLints().ByName(name) != nil {
+		return "crl"
+	}
+	if g.OcspResponseLints().ByName(name) != nil {
+		return "ocsp"
+	}
+	return "cert"
+}
+
+// forEachCalendarCRL enumerates built revocation lists over the calendar: thisUpdate on leap days, month and year
+// ends (four years, three times of day) x nextUpdate = thisUpdate + {10 days, 11 / 12 / 13 months, 1 year} +
+// {-1 day, -1 s, 0, +1 s, +12 h, +1 day} x configuration {none, SubscriberCRL = false, SubscriberCRL = true} -
+// where month arithmetic rolls over. This shard's share.
+func forEachCalendarCRL(fn func(c engine.Case)) {
+	docs := []*string{nil}
+	for _, d := range []string{"[e_crl_next_update_invalid]\nSubscriberCRL = false\n", "[e_crl_next_update_invalid]\nSubscriberCRL = true\n"} {
+		d := d
+		docs = append(docs, &d)
+	}
+	num := int64(7)
+	k := 0
+	for _, y := range []int{2024, 2025, 2027, 2028} {
+		for _, md := range [][2]int{{2, 28}, {2, 29}, {3, 1}, {12, 29}, {12, 30}, {12, 31}, {1, 1}, {1, 31}, {3, 31}, {4, 30}, {8, 31}, {10, 31}, {11, 30}} {
+			for _, hms := range [][3]int{{0, 0, 0}, {23, 59, 59}, {12, 0, 0}} {
+				this := time.Date(y, time.Month(md[0]), md[1], hms[0], hms[1], hms[2], 0, time.UTC)
+				if this.Day() != md[1] {
+					continue // 29 February of a common year
+				}
+				for _, span := range [][3]int{{0, 0, 10}, {0, 11, 0}, {0, 12, 0}, {0, 13, 0}, {1, 0, 0}} {
+					for _, off := range []time.Duration{-24 * time.Hour, -time.Second, 0, time.Second, 12 * time.Hour, 24 * time.Hour} {
+						k++
+						if !stats.Mine(k) {
+							continue
+						}
+						next := this.AddDate(span[0], span[1], span[2]).Add(off)
+						der := gen.BuildCRL(gen.CRLSpec{V2: true, ThisUpdate: this, NextUpdate: &next, CRLNumber: &num, AKI: true})
+						for _, doc := range docs {
+							c := engine.Case{Kind: gen.CRL, DER: der, Base: "built-crl", Config: doc,
+								Ops: []string{fmt.Sprintf("calendar this=%s next=%s", this.Format(time.RFC3339), next.Format(time.RFC3339))}}
+							fn(c)
+						}
+					}
+				}
+			}
+		}
+	}
+}
